@@ -434,9 +434,10 @@ impl Gen {
 		}
 		if self.long_regimes {
 			if self.regime_left == 0 {
-				self.shape = self.rng.below(12);
-				// steady trends outlast PeriodType::MAX bars
-				self.regime_left = if self.shape >= 8 { 270 + self.rng.below(200) } else { 20 + self.rng.below(200) };
+				// (the first regime of every other stream is a trend with ripple: hundreds of local peaks on one side of the trend)
+				self.shape = if self.calls <= 1 && self.rng.chance(0.5) { 12 + self.rng.below(2) } else { self.rng.below(14) };
+				// steady trends outlast PeriodType::MAX bars; trends with ripple outlast PeriodType::MAX local peaks
+				self.regime_left = if self.shape >= 12 { 600 + self.rng.below(500) } else if self.shape >= 8 { 270 + self.rng.below(200) } else { 20 + self.rng.below(200) };
 			}
 			self.regime_left -= 1;
 		} else if self.rng.chance(0.04) {
@@ -464,7 +465,9 @@ impl Gen {
 			6 => self.cur + s * 0.01 * u,                     // monotone up
 			7 => self.cur - s * 0.01 * u,                     // monotone down
 			8..=9 => self.cur * (1.0 + 0.004 * (0.5 + u)),    // steady rally (every bar a new high, no pullback)
-			_ => self.cur * (1.0 - 0.004 * (0.5 + u)),        // steady decline
+			10..=11 => self.cur * (1.0 - 0.004 * (0.5 + u)),  // steady decline
+			12 => self.cur * if self.calls % 2 == 0 { 1.0 + 0.009 * (0.8 + 0.4 * u) } else { 1.0 - 0.003 * (0.8 + 0.4 * u) }, // rally with ripple
+			_ => self.cur * if self.calls % 2 == 0 { 1.0 - 0.009 * (0.8 + 0.4 * u) } else { 1.0 + 0.003 * (0.8 + 0.4 * u) },  // decline with ripple
 		};
 		self.finish(v)
 	}
